@@ -7,9 +7,9 @@ from props import _lay
 
 LEVEL = "proof"
 MODULE = "Phil.Props.C02"
-LEVEL_TEXT = "Lean theorems, all inputs of a layout grammar given as data: every well-formed layout of one abstract document parses to the same tree — flat documents with newline/;/comment terminators, backslash continuation lines, quoted continuation lines, multi-line quoted words, switched-off regions (#phil __OFF__ ... __ON__) as filler and a cut by #phil __END__ (layout3_independent, cut_tail_ignored), attribute lines and '!' on one attribute (attrs_layout_independent, bang_attribute_is_removal, bang_definition_keeps_attributes, scope-header attributes), nested scopes, dotted names = nested braces, '!' disables exactly one construct (layout_independent_nested, dotted_equals_nested, bang_disables_exactly_one(_nested)). Kernel-checked negative witnesses for every sharp edge. The parser model is tied to /repo by a correspondence run on every rendering (full tree incl. ids, lines, attribute values); the oracle requires several independent random layouts of each abstract tree to parse to the generator's tree on the implementation."
-LEVEL_NOTE = 'The grammars are separate (flat+continuations+regions; flat+attributes; nested without continuations); one grammar for whole documents is not yet proved — combinations rest on correspondence and oracle. Known finding D20 (quote character inside a trailing # comment) is outside the grammar (cmtSafe) and visited in its own stream.'
-TECHNIQUE = 'Lean 4 closed-form layout-independence theorems over a layout grammar + differential correspondence + layout-grammar oracle'
+LEVEL_TEXT = "Lean theorems, all inputs of ONE layout grammar for whole documents given as data (LayoutAll: definitions and scopes nested to any depth, dotted names, '!' on definitions / scopes / single attributes, attribute items, backslash and quoted continuation lines, multi-line quoted words, switched-off regions as filler, a #phil __END__ cut): every well-formed layout of one abstract document parses to the same tree (parse_closed_form_all, layout_independent_all, two_layouts_same_tree_all), '!' disables exactly one construct (bang_disables_exactly_one_all, bang_on_attribute_all), dotted = nested (dotted_equals_nested_all), a cut tail is ignored at top level and refused inside an open scope (cut_tail_ignored_all, cut_inside_scope_fails_all); the earlier separate grammars embed. Kernel-checked negative witnesses for every sharp edge. The parser model is tied to /repo by a correspondence run on every rendering (full tree incl. ids, lines, attribute values); the oracle requires several independent random layouts of each abstract tree to parse to the generator's tree on the implementation; identifier predicates are regenerated from the source and proved equal to the model (Props/Translated)."
+LEVEL_NOTE = 'Header attribute values have no backslash continuation in the grammar. Known finding D20 (quote character inside a trailing # comment) is outside the grammar (cmtSafe) and visited in its own stream.'
+TECHNIQUE = 'Lean 4 closed-form layout-independence theorem over one layout grammar for whole documents + differential correspondence + layout-grammar oracle'
 RULE = ("abstract trees (depth 0-3, words of every quote style incl. multi-line, attributes of every kind, '!' marks) x "
         "3 random layouts each (layout intensity 0/0.5/1); non-trivial = tree has at least one object; distinct = distinct rendering")
 ASSUMPTIONS = ["renderer emits only layouts the property names; comments never end in a backslash and (outside the D20 stream) "
